@@ -140,6 +140,7 @@ def num_py(s: str):
 
 
 def mkgrid(g: dict):
+    impl()
     from lcm import DiscreteGrid, LinspaceGrid, LogspaceGrid
 
     if g["k"] == "disc":
@@ -176,6 +177,11 @@ def grid_points(g: dict) -> list[Fr]:
     if g["k"] == "lin":
         a, b, n = Fr(g["a"]), Fr(g["b"]), g["n"]
         return [a + (b - a) / (n - 1) * i for i in range(n)] if n > 1 else [a]
+    if g["k"] == "log":
+        import math
+
+        a, b, n = float(Fr(g["a"])), float(Fr(g["b"])), g["n"]
+        return [Fr(math.exp(math.log(a) + i * (math.log(b) - math.log(a)) / (n - 1))) for i in range(n)] if n > 1 else [Fr(a)]
     raise ValueError(g)
 
 
